@@ -43,7 +43,7 @@ Proof. intros U5 H HU HH. exact (semantic_id_discriminates U5 H HU HH gen_canon_
 
 (* node semantic id => the whole sanitized sweep block *)
 Theorem C05_node_semantic_id_discriminates : forall H n m s s', n_sweep n = Some s -> n_sweep m = Some s' ->
-  jok (strip (sweep_meta H n s)) = true -> jok (strip (sweep_meta H m s')) = true ->
+  jok (strip_block (sweep_meta H n s)) = true -> jok (strip_block (sweep_meta H m s')) = true ->
   node_sem_id H n = node_sem_id H m -> sweep_block H n = sweep_block H m \/ Collision H.
 Proof. exact node_sem_discriminates. Qed.
 
@@ -52,8 +52,8 @@ Theorem C05_sweep_block_fields : forall H n m s s', n_sweep n = Some s -> n_swee
   sweep_block H n = sweep_block H m ->
   pi_fqcn (n_info n) = pi_fqcn (n_info m) /\ sw_mode s = sw_mode s' /\ sw_broadcast s = sw_broadcast s' /\
   sw_collection s = sw_collection s' /\
-  canon (strip (pe_json s)) = canon (strip (pe_json s')) /\
-  canon (strip (vars_json H s)) = canon (strip (vars_json H s')).
+  canon (pe_part s) = canon (pe_part s') /\
+  canon (vars_part H s) = canon (vars_part H s').
 Proof. intros H. exact (sweep_block_fields H gen_ui_only gen_dropped_key). Qed.
 
 (* config id => the uuid-sorted list of (node uuid, node semantic id) pairs *)
@@ -89,28 +89,89 @@ Proof. intros H n m s s' En Em Hd E. apply Hd. apply (C05_sweep_block_fields H n
 Lemma mut_sweep_collection : forall H n m s s', n_sweep n = Some s -> n_sweep m = Some s' ->
   sw_collection s <> sw_collection s' -> sweep_block H n <> sweep_block H m.
 Proof. intros H n m s s' En Em Hd E. apply Hd. apply (C05_sweep_block_fields H n m s s' En Em E). Qed.
-(* a non-equivalent expression for one swept parameter (different normal form, C12) *)
+(* a non-equivalent expression for one swept parameter (different normal form, C12).  With the scoped sanitiser
+   (raw source dropped inside the entries only) this holds for EVERY parameter name; with the any-depth one the
+   proof needs the name not to be one of the dropped keys -- and the hypothesis is not an artefact:
+   C05_names_refuted_when below *)
 Lemma mut_sweep_expression : forall H n m s s' p e e', n_sweep n = Some s -> n_sweep m = Some s' ->
-  sw_exprs s = [(p, e)] -> sw_exprs s' = [(p, e')] -> dropped p = false ->
+  sw_exprs s = [(p, e)] -> sw_exprs s' = [(p, e')] -> node_sem_strip_scoped = true \/ dropped p = false ->
   wf e = true -> wf e' = true -> norm comm e <> norm comm e' -> sweep_block H n <> sweep_block H m.
 Proof.
   intros H n m s s' p e e' En Em Es Es' Hp We We' Hd E. apply Hd.
   destruct (C05_sweep_block_fields H n m s s' En Em E) as (_ & _ & _ & _ & Ep & _).
-  unfold pe_json in Ep. rewrite Es, Es' in Ep. cbn [map fst snd] in Ep.
-  rewrite !strip_obj in Ep. cbn [strip_m] in Ep. rewrite Hp in Ep.
-  cbn [strip] in Ep. unfold dropped in Ep. rewrite gen_ui_only, gen_dropped_key in Ep. simpl in Ep.
-  injection Ep as Ep. apply (sig_norm comm e e' We We' Ep).
+  unfold pe_part, pe_json in Ep. rewrite Es, Es' in Ep. cbn [map fst snd] in Ep.
+  destruct node_sem_strip_scoped.
+  - unfold strip_entries, kmap, strip_entry, kfilter in Ep. rewrite gen_dropped_key in Ep.
+    cbn [map filter fst snd String.eqb Ascii.eqb Bool.eqb negb] in Ep.
+    simpl in Ep. injection Ep as Ep. apply (sig_norm comm e e' We We' Ep).
+  - destruct Hp as [X|Hp]; [discriminate X|].
+    rewrite !strip_obj in Ep. cbn [strip_m] in Ep. rewrite Hp in Ep.
+    cbn [strip] in Ep. unfold dropped in Ep. rewrite gen_ui_only, gen_dropped_key in Ep. simpl in Ep.
+    injection Ep as Ep. apply (sig_norm comm e e' We We' Ep).
 Qed.
 (* a different variable domain for one sweep variable *)
+Definition vdom_part (H : string -> string) (d : vspec) : json :=
+  if node_sem_strip_scoped then vspec_json H d else strip (vspec_json H d).
 Lemma mut_sweep_variable_domain : forall H n m s s' v d d', n_sweep n = Some s -> n_sweep m = Some s' ->
-  sw_vars s = [(v, d)] -> sw_vars s' = [(v, d')] -> dropped v = false ->
-  canon (strip (vspec_json H d)) <> canon (strip (vspec_json H d')) -> sweep_block H n <> sweep_block H m.
+  sw_vars s = [(v, d)] -> sw_vars s' = [(v, d')] -> node_sem_strip_scoped = true \/ dropped v = false ->
+  canon (vdom_part H d) <> canon (vdom_part H d') -> sweep_block H n <> sweep_block H m.
 Proof.
   intros H n m s s' v d d' En Em Es Es' Hv Hd E. apply Hd.
   destruct (C05_sweep_block_fields H n m s s' En Em E) as (_ & _ & _ & _ & _ & Ev).
-  unfold vars_json in Ev. rewrite Es, Es' in Ev. cbn [map fst snd] in Ev.
-  rewrite !strip_obj in Ev. cbn [strip_m] in Ev. rewrite Hv in Ev.
-  rewrite !canon_obj in Ev. cbn [map cm ksort fold_right kinsert] in Ev. injection Ev; auto.
+  unfold vars_part, vars_json, vdom_part in *. rewrite Es, Es' in Ev. cbn [map fst snd] in Ev.
+  destruct node_sem_strip_scoped.
+  - rewrite !canon_obj in Ev. cbn [map cm ksort fold_right kinsert] in Ev. injection Ev; auto.
+  - destruct Hv as [X|Hv]; [discriminate X|].
+    rewrite !strip_obj in Ev. cbn [strip_m] in Ev. rewrite Hv in Ev.
+    rewrite !canon_obj in Ev. cbn [map cm ksort fold_right kinsert] in Ev. injection Ev; auto.
+Qed.
+
+(* The any-depth sanitiser: a sweep VARIABLE that happens to be named like the raw-source field ("expr") vanishes
+   from the node semantic id -- two sweeps over different domains (hence different results) share every identity,
+   for every pair of hash functions. *)
+Definition wit_named (var : string) (vals : list json) : config :=
+  [{| n_proc := "FloatMultiplyOperation"; n_params := [];
+      n_info := {| pi_fqcn := "semantiva.examples.test_utils.FloatMultiplyOperation"; pi_kind := KOp;
+                   pi_required := ["factor"]; pi_created := []; pi_suppressed := [] |};
+      n_ctxkey := None;
+      n_sweep := Some {| sw_exprs := [("factor", Bin Mult (Var var) (Const 2))];
+                         sw_vars := [(var, VSeq vals)];
+                         sw_mode := "combinatorial"; sw_broadcast := false;
+                         sw_collection := Some "semantiva.examples.test_utils.FloatDataCollection" |} |}].
+Definition wn1 := wit_named "expr" [JNum "1.0"; JNum "2.0"].
+Definition wn2 := wit_named "expr" [JNum "5.0"; JNum "7.0"].
+Lemma ids_of_single U5 H n1 n2 : node_uuid U5 0 n1 = node_uuid U5 0 n2 -> node_sem_id H n1 = node_sem_id H n2 ->
+  (exists s1, n_sweep n1 = Some s1) -> (exists s2, n_sweep n2 = Some s2) ->
+  semantic_id U5 H [n1] = semantic_id U5 H [n2] /\ config_id U5 H [n1] = config_id U5 H [n2].
+Proof.
+  intros Eu Es [s1 E1] [s2 E2]. split.
+  - unfold semantic_id, semantic_pre, semantic_struct. cbn [sem_entries]. unfold sem_entry.
+    rewrite E1, E2, Eu, Es. reflexivity.
+  - unfold config_id, config_pre, config_struct, pairs, uuids, node_sems. cbn [uuids_from map].
+    rewrite Eu, Es. reflexivity.
+Qed.
+Theorem C05_names_refuted_when : node_sem_strip_scoped = false ->
+  wn1 <> wn2 /\
+  forall U5 H, node_sems H wn1 = node_sems H wn2 /\ semantic_id U5 H wn1 = semantic_id U5 H wn2 /\
+               config_id U5 H wn1 = config_id U5 H wn2.
+Proof.
+  intros Hf. split; [intro X; discriminate X|]. intros U5 H.
+  assert (N : node_sems H wn1 = node_sems H wn2).
+  { unfold node_sems, node_sem_id, node_sem_pre, strip_block, wn1, wn2, wit_named. rewrite Hf.
+    vm_compute. reflexivity. }
+  split; [exact N|].
+  apply (f_equal (fun l => hd EmptyString l)) in N.
+  unfold wn1, wn2, wit_named in *. cbn [node_sems map hd] in N.
+  apply ids_of_single; [vm_compute; reflexivity|exact N| |]; eexists; reflexivity.
+Qed.
+(* ... while with the scoped sanitiser the same two configurations are told apart (collision-explicit) *)
+Theorem C05_names_full : node_sem_strip_scoped = true -> forall H n m s s' v d d',
+  n_sweep n = Some s -> n_sweep m = Some s' -> sw_vars s = [(v, d)] -> sw_vars s' = [(v, d')] ->
+  canon (vspec_json H d) <> canon (vspec_json H d') -> sweep_block H n <> sweep_block H m.
+Proof.
+  intros Hs H n m s s' v d d' En Em Es Es' Hd.
+  apply (mut_sweep_variable_domain H n m s s' v d d' En Em Es Es' (or_introl Hs)).
+  unfold vdom_part. rewrite Hs. exact Hd.
 Qed.
 
 (* ---- (5) the semantic id and the sweep definition.  Documented: "includes sanitized
@@ -170,7 +231,7 @@ Theorem C05_partial : forall U5 H, hash_ok U5 -> hash_ok H ->
   (forall c1 c2, forallb node_ok c1 = true -> forallb node_ok c2 = true ->
      semantic_id U5 H c1 = semantic_id U5 H c2 -> sem_fields c1 = sem_fields c2 \/ Collision U5 \/ Collision H) /\
   (forall n m s s', n_sweep n = Some s -> n_sweep m = Some s' ->
-     jok (strip (sweep_meta H n s)) = true -> jok (strip (sweep_meta H m s')) = true ->
+     jok (strip_block (sweep_meta H n s)) = true -> jok (strip_block (sweep_meta H m s')) = true ->
      node_sem_id H n = node_sem_id H m -> sweep_block H n = sweep_block H m \/ Collision H) /\
   (forall c1 c2, config_id U5 H c1 = config_id U5 H c2 ->
      ksort fst (pairs U5 H c1) = ksort fst (pairs U5 H c2) \/ Collision H).
@@ -186,7 +247,7 @@ Example ex_hash_ok : hash_ok (fun _ => "0a1b-2c") /\ ~ hash_ok (fun s => s).
 Proof. split; [intros s; reflexivity|]. intro X. specialize (X (String (Ascii.ascii_of_nat 34) "")). discriminate X. Qed.
 Example ex_node_ok : forallb node_ok w1 = true /\ forallb node_ok w3 = true.
 Proof. split; reflexivity. Qed.
-Example ex_block_jok : jok (strip (sweep_meta (fun _ => "00") (hd (Build_node "" [] fvds None None) w1)
+Example ex_block_jok : jok (strip_block (sweep_meta (fun _ => "00") (hd (Build_node "" [] fvds None None) w1)
   {| sw_exprs := [("value", Bin Mult (Const 2) (Var "t"))]; sw_vars := [("t", VSeq [JNum "1.0"; JNum "2.0"; JNum "3.0"])];
      sw_mode := "combinatorial"; sw_broadcast := false;
      sw_collection := Some "semantiva.examples.test_utils.FloatDataCollection" |})) = true.
@@ -206,13 +267,33 @@ Theorem C05_semantic_id_discriminates_now : forall U5 H, hash_ok U5 -> hash_ok H
   semantic_id U5 H c1 = semantic_id U5 H c2 ->
   (sem_fields c1 = sem_fields c2 /\ node_sems H c1 = node_sems H c2) \/ Collision U5 \/ Collision H.
 Proof. exact (C05_full gen_sem_includes_sweep). Qed.
+(* the sanitiser is the scoped one on the current tree (fix commit 3bfdd4d): hard obligation, and the name-independent
+   forms of the two sweep mutation lemmas *)
+Lemma now_strip_scoped : node_sem_strip_scoped = true.
+Proof. reflexivity. Qed.
+Theorem C05_sweep_expression_discriminates_now : forall H n m s s' p e e', n_sweep n = Some s -> n_sweep m = Some s' ->
+  sw_exprs s = [(p, e)] -> sw_exprs s' = [(p, e')] ->
+  wf e = true -> wf e' = true -> norm comm e <> norm comm e' -> sweep_block H n <> sweep_block H m.
+Proof. intros H n m s s' p e e' En Em Es Es'. exact (mut_sweep_expression H n m s s' p e e' En Em Es Es' (or_introl now_strip_scoped)). Qed.
+Theorem C05_variable_domain_discriminates_now : forall H n m s s' v d d',
+  n_sweep n = Some s -> n_sweep m = Some s' -> sw_vars s = [(v, d)] -> sw_vars s' = [(v, d')] ->
+  canon (vspec_json H d) <> canon (vspec_json H d') -> sweep_block H n <> sweep_block H m.
+Proof. exact (C05_names_full now_strip_scoped). Qed.
+Example ex_named_expr_distinct : node_sems idh wn1 <> node_sems idh wn2.
+Proof. intro X. vm_compute in X. discriminate X. Qed.
 Print Assumptions C05_semantic_id_discriminates_now.
+Print Assumptions C05_sweep_expression_discriminates_now.
+Print Assumptions C05_variable_domain_discriminates_now.
 Print Assumptions C05_dumps_tokens_injective.
 Print Assumptions C05_dumps_text_injective.
 Print Assumptions C05_node_uuid_distinct_in_pipeline.
 Print Assumptions C05_semantic_id_discriminates.
 Print Assumptions C05_node_semantic_id_discriminates.
 Print Assumptions C05_sweep_block_fields.
+Print Assumptions mut_sweep_expression.
+Print Assumptions mut_sweep_variable_domain.
+Print Assumptions C05_names_refuted_when.
+Print Assumptions C05_names_full.
 Print Assumptions C05_config_id_discriminates.
 Print Assumptions mut_sweep_expression.
 Print Assumptions mut_sweep_variable_domain.
